@@ -12,7 +12,6 @@
 //verif:bound one peer, two addresses (atoms), whole-second instants, history length 3 (thorough 4) + final gc, per-peer and global caps disabled (cap eviction is a separate kernel)
 //verif:stub multiaddrs are opaque atoms (peer.SplitAddr replaced by the identity for addresses without /p2p suffix; natively the real function runs); Envelope.Record / ID.MatchesPublicKey hooked (crypto and protobuf outside); clock = harness stub
 //verif:outside /p2p-suffixed addresses, AddrStream, cap eviction, concurrent callers, close/reopen
-//verif:nowitness-skip
 package pstoremem
 
 import (
